@@ -324,7 +324,7 @@ let exec (s : t) (verbose : bool) (f : string array) (obs : string option) : str
     else (match b with
       | `G _ -> let rb = run b in let ra = run a in "parked " ^ ra ^ " " ^ rb
       | _ -> let ra = run a in let rb = run b in "parked " ^ ra ^ " " ^ rb)
-  | "concstress" | "concmix" -> "done"
+  | "concstress" | "concmix" | "concbg" -> "done"
   | "dtset" | "dtget" | "dtdel" | "dttype" | "hset" | "hget" | "hdel" | "sadd" | "srem" | "sismember"
   | "lpush" | "rpush" | "lpop" | "rpop" | "zadd" | "zscore" ->
     (* clock readings and the batch id are inputs observed from the implementation *)
